@@ -138,6 +138,10 @@ def cases(tier, seed):
             aligns = [a for a in aligns if a != "aa"]  # left to the other tier / not explored
         if aligns:
             out.append({"reaction": {"spec": spec}, "aligns": aligns, "seed": seed})
+            n_prelude = sum(1 for c in out if c.get("prelude"))
+            if spec["outer"]["-1"][1] == "1" and len(r.final_state) == 3 and n_prelude < (6 if tier == "quick" else 60):
+                out.append({"reaction": {"spec": spec}, "aligns": aligns, "seed": seed,
+                            "prelude": "restricted-initial"})
     out.append({"reaction": {"catalogue": "jpsi_gpipi_f2_full.hel"}, "aligns": ["aa", "dpd1", "dpd2"], "seed": seed})
     out.append({"reaction": {"catalogue": "jpsi_gpipi_f0f2.hel"}, "aligns": ["aa", "dpd1"], "seed": seed})
     return out
@@ -182,7 +186,7 @@ def eval_case(case):
 
     seed = case.get("seed", 0)
     reaction0 = R.reaction_from(case["reaction"])
-    desc = _describe({**case, "align": "*", "dyn": "none"})
+    desc = _describe({**case, "align": "*", "dyn": "none"}) + (f" prelude={case['prelude']}" if case.get("prelude") else "")
     if not complete_helicity_sets(reaction0):
         return {"outcome": "not-judged(helicity set incomplete: precondition of the statement)", "evaluations": 0}
     massless_spin = [p for p in reaction0.final_state.values() if p.mass == 0.0 and p.spin >= 1]
@@ -213,6 +217,17 @@ def eval_case(case):
     scale = np.maximum(np.max(np.abs(base), axis=1, keepdims=True), 1e-12)
     for align in case["aligns"]:
         try:
+            if case.get("prelude") == "restricted-initial":
+                # history: the same particles and topologies with a restricted helicity set
+                # were formulated (with the same alignment) earlier in this process
+                from qrules.transition import ReactionInfo  # noqa: PLC0415
+
+                init = next(iter(reaction0.initial_state))
+                jmax = max(abs(t.states[init].spin_projection) for t in reaction0.transitions)
+                sub = [t for t in reaction0.transitions if abs(t.states[init].spin_projection) == jmax]
+                if 0 < len(sub) < len(reaction0.transitions):
+                    bs, _ = make_builder(ReactionInfo(sub, formalism=reaction0.formalism), align, "none")
+                    bs.formulate()
             b, r = make_builder(reaction0, align, "none")
             m = b.formulate()
         except Exception as exc:  # noqa: BLE001
